@@ -10,8 +10,8 @@ PAYLOAD = ['"', "'", '<', '>', '&', '&quot;', '&#34;', '&#x22;', '&amp;', '&lt;'
            '[', ']', '\\[', '\\]', '`', '*', '_', '<b>', '</a>', '<script>', '-->', '&#', ';', '#', '?', 'é', '\\', ' ']
 
 
-def payload(t, lo=1, hi=6, no_space=False, avoid=''):
-    parts = [t.choice(PAYLOAD) for _ in range(t.between(lo, hi))]
+def payload(t, lo=1, hi=6, no_space=False, avoid='', frags=None):
+    parts = [t.choice(frags or PAYLOAD) for _ in range(t.between(lo, hi))]
     s = ''.join(parts)
     if no_space:
         s = s.replace(' ', '')
@@ -20,30 +20,30 @@ def payload(t, lo=1, hi=6, no_space=False, avoid=''):
     return s
 
 
-def hostile(t):
+def hostile(t, frags=None):
     """One Markdown snippet that puts a payload where the renderer writes an attribute or escaped text."""
     k = t.below(12)
-    p1 = payload(t, no_space=True)
-    p2 = payload(t)
-    p3 = payload(t)
+    p1 = payload(t, no_space=True, frags=frags)
+    p2 = payload(t, frags=frags)
+    p3 = payload(t, frags=frags)
     if k == 0:
         return '[%s](%s)' % (p3.replace(']', ''), p1)
     if k == 1:
         return '![%s](%s)' % (p3.replace(']', ''), p1)
     if k == 2:
-        return '[a](<%s> "%s")' % (payload(t, avoid='\n'), p2)
+        return '[a](<%s> "%s")' % (payload(t, avoid='\n', frags=frags), p2)
     if k == 3:
-        return '![%s](<%s> \'%s\')' % (p3, payload(t, avoid='\n'), p2)
+        return '![%s](<%s> \'%s\')' % (p3, payload(t, avoid='\n', frags=frags), p2)
     if k == 4:
         return '<%s%s>' % (t.choice(['http:', 'foo:', 'mailto:', 'a+b:', 'x@', 'made-up-scheme:']), p1)
     if k == 5:
-        return '<%s@%s>' % (payload(t, 1, 3, no_space=True), payload(t, 1, 3, no_space=True))
+        return '<%s@%s>' % (payload(t, 1, 3, no_space=True, frags=frags), payload(t, 1, 3, no_space=True, frags=frags))
     if k == 6:
         return '%s%s\ncode %s\n%s' % (t.choice(['```', '~~~', '````']), p2, p3, t.choice(['```', '~~~', '````']))
     if k == 7:
         return '[l]: %s "%s"\n\n[l] ![l] [%s][l]' % (p1 or 'u', p2, p3)
     if k == 8:
-        return '[l]: <%s> (%s)\n\n![%s][l]' % (payload(t, avoid='\n'), p2, p3)
+        return '[l]: <%s> (%s)\n\n![%s][l]' % (payload(t, avoid='\n', frags=frags), p2, p3)
     if k == 9:
         return '`%s` and ``%s``' % (p2, p3)
     if k == 10:
